@@ -319,8 +319,35 @@ fn f10() {
     }
 }
 
+/// fbase::primes(n) against trial division: exactly the first n primes
+fn primes_case(rng: &mut Rng, iters: u64) {
+    let mut ns: Vec<u32> = vec![0, 1, 2, 3, 4, 5, 10, 24, 25, 26, 100, 168, 169, 1000, 6542, 6543, 10000];
+    for _ in 0..(iters / 200).min(20) {
+        ns.push((rng.next() % 30000) as u32);
+    }
+    for n in ns {
+        let got = match catch_unwind(|| yamaquasi::fbase::primes(n)) {
+            Ok(v) => v,
+            Err(_) => fail("primes", format!("primes({n}): panic")),
+        };
+        let mut want = vec![];
+        let mut c = 2u64;
+        while want.len() < n as usize {
+            if is_prime_td(c) {
+                want.push(c as u32);
+            }
+            c += 1;
+        }
+        if got != want {
+            let k = got.iter().zip(want.iter()).position(|(a, b)| a != b).unwrap_or(got.len().min(want.len()));
+            fail("primes", format!("primes({n}): {} primes returned, first difference at index {k}: got {:?} want {:?}", got.len(), got.get(k), want.get(k)));
+        }
+    }
+}
+
 pub fn run(case: &str, rng: &mut Rng, iters: u64) -> bool {
     match case {
+        "primes" => primes_case(rng, iters),
         "f10" => f10(),
         "chainmul" => chainmul(rng, iters, None),
         // known finding F2b: a 33-opcode chain
